@@ -821,6 +821,14 @@ def hostile_cases():
                 out.append((tag, ty, "w", ("%s %d 0 0 0 0 %d %d %d %d\n" % (tag, min(n, 2 ** 62), n, n, n, n)).encode()))
                 out.append((tag, ty, "-", ("%s %d 0 %d %d 0\n1\n" % (tag, min(n, 2 ** 62), min(n, 2 ** 61), n)).encode()))
                 out.append((tag, ty, "w", ("%s %d %d 0 0 0\n" % (tag, min(n, 2 ** 62), min(n, 2 ** 62))).encode()))
+                # every pre-allocated section on its own (the whole-file parsers reserve per header count)
+                out.append((tag, ty, "w", ("%s %d 0 0 0 %d\n" % (tag, min(n, 2 ** 62), min(n, 2 ** 62))).encode()))
+                out.append((tag, ty, "w", ("%s %d 0 %d 0 0\n" % (tag, min(n, 2 ** 62), min(n, 2 ** 62))).encode()))
+                out.append((tag, ty, "w", ("%s 0 0 0 %d 0\n" % (tag, n)).encode()))
+                for k in range(4):
+                    cnt = ["0"] * 4; cnt[k] = str(n)
+                    if k != 2:      # a hostile justice count needs its size lines: covered below
+                        out.append((tag, ty, "w", ("%s 0 0 0 0 0 %s\n" % (tag, " ".join(cnt))).encode()))
                 out.append((tag, ty, "w", ("%s 0 0 0 0 0 0 0 %d\n%d\n" % (tag, n, n)).encode()))
                 out.append((tag, ty, "w", ("%s 1 1 0 0 0 0 0 1\n%s%d\n2\n" % (tag, "2\n" if tag == "aag" else "", n)).encode()))
                 out.append((tag, ty, "w", ("%s 1 1 0 0 0 0 0 2\n%s%d\n1\n2\n" % (tag, "2\n" if tag == "aag" else "", n)).encode()))
